@@ -223,6 +223,7 @@ pub mod sched {
         abstract_state: Vec<((&'static str, u64), u64)>,
         out: Option<std::io::BufWriter<std::fs::File>>,
         config: Config,
+        keyed: Vec<(u64, u32)>,
     }
 
     impl Sched {
@@ -404,6 +405,7 @@ pub mod sched {
                 objects: HashMap::new(),
                 abstract_state: Vec::new(),
                 out: None,
+                keyed: Vec::new(),
                 config: Config {
                     enabled: false,
                     regions: Vec::new(),
@@ -480,6 +482,7 @@ pub mod sched {
         s.region = name;
         s.instance += 1;
         s.tasks.clear();
+        s.keyed.clear();
         s.objects.clear();
         s.abstract_state.clear();
         s.tasks.push(Task {
@@ -569,6 +572,30 @@ pub mod sched {
         });
         s.pending_spawns += 1;
         Ticket(id)
+    }
+
+    /// Issues a ticket for a task that will identify itself by `key` when it starts. For tasks
+    /// that are started by a parallel iterator rather than spawned one at a time.
+    pub fn ticket_keyed(region: &'static str, label: &'static str, key: u64) {
+        let Ticket(id) = ticket(region, label);
+        if id != NO_TICKET {
+            lock_sched().keyed.push((key, id));
+        }
+    }
+
+    /// First statement of the body of a task for which `ticket_keyed` was called.
+    pub fn task_begin_keyed(region: &'static str, key: u64) -> TaskGuard {
+        let id = {
+            let mut s = lock_sched();
+            if !s.active || s.region != region {
+                NO_TICKET
+            } else if let Some(pos) = s.keyed.iter().position(|(k, _)| *k == key) {
+                s.keyed.remove(pos).1
+            } else {
+                NO_TICKET
+            }
+        };
+        task_begin(Ticket(id))
     }
 
     pub struct TaskGuard {
